@@ -379,7 +379,9 @@ impl<'a> Lexer<'a> {
         start_idx: usize,
     ) -> TokenValue<'a> {
         let mut iter = self.s[self.l..self.u].chars();
-        let mut n = initial_value;
+        // The integer part is accumulated in 64 bits and saturates so that it can't overflow.
+        // It is checked to be in range once we know what kind of number this is.
+        let mut n: i64 = initial_value.into();
         let mut parsing_n = true;
         let mut d = [0_u8; 17];
         let mut next_d = 0_usize;
@@ -388,8 +390,7 @@ impl<'a> Lexer<'a> {
                 Some(c @ '0'..='9') => {
                     let i = (c as i32) - ('0' as i32);
                     if parsing_n {
-                        n = n.checked_mul(10).unwrap();
-                        n = n.checked_add(i).unwrap();
+                        n = n.saturating_mul(10).saturating_add(i.into());
                     } else {
                         if let Some(d) = d.get_mut(next_d) {
                             *d = i.try_into().expect("i in [0,9]")
@@ -418,36 +419,58 @@ impl<'a> Lexer<'a> {
                         self.l += n.len_utf8();
                     }
 
-                    let mut s = common::Scaled::from_decimal_digits(&d) + common::Scaled::ONE * n;
-                    if negative {
-                        s.0 *= -1;
-                    }
                     let raw_unit = &self.s[u..self.l];
-                    if let Some(unit) = common::ScaledUnit::parse(raw_unit) {
-                        let mut s =
-                            common::Scaled::new(n, common::Scaled::from_decimal_digits(&d), unit)
-                                .unwrap();
-                        if negative {
-                            s = -s;
-                        }
-                        return TokenValue::Scaled(s);
+                    let unit = if let Some(unit) = common::ScaledUnit::parse(raw_unit) {
+                        Some((unit, None))
+                    } else {
+                        common::GlueOrder::parse(raw_unit)
+                            .map(|glue_order| (common::ScaledUnit::Point, Some(glue_order)))
+                    };
+                    let Some((unit, glue_order)) = unit else {
+                        self.errs.add(Error::InvalidDimensionUnit {
+                            dimension: Str {
+                                value: self.s,
+                                start: start_idx,
+                                end: self.l,
+                            },
+                            unit: Str {
+                                value: self.s,
+                                start: u,
+                                end: self.l,
+                            },
+                        });
+                        return TokenValue::Scaled(common::Scaled::ZERO);
+                    };
+                    let fractional_part = common::Scaled::from_decimal_digits(&d);
+                    let s = match glue_order {
+                        // Dimensions must be smaller than 16384pt, as in TeX.
+                        None => i32::try_from(n)
+                            .ok()
+                            .and_then(|n| common::Scaled::new(n, fractional_part, unit).ok()),
+                        // Infinite glue amounts only need to be representable.
+                        Some(_) => n
+                            .checked_mul(common::Scaled::ONE.0.into())
+                            .and_then(|n| n.checked_add(fractional_part.0.into()))
+                            .and_then(|n| i32::try_from(n).ok())
+                            .map(common::Scaled),
+                    };
+                    let Some(mut s) = s else {
+                        self.errs.add(Error::NumberTooLarge {
+                            number: Str {
+                                value: self.s,
+                                start: start_idx,
+                                end: self.l,
+                            },
+                        });
+                        return TokenValue::Scaled(common::Scaled::ZERO);
+                    };
+                    if negative {
+                        s = -s;
                     }
-                    if let Some(glue_order) = common::GlueOrder::parse(raw_unit) {
-                        return TokenValue::InfiniteGlue(s, glue_order);
-                    }
-                    self.errs.add(Error::InvalidDimensionUnit {
-                        dimension: Str {
-                            value: self.s,
-                            start: start_idx,
-                            end: self.l,
-                        },
-                        unit: Str {
-                            value: self.s,
-                            start: u,
-                            end: self.l,
-                        },
-                    });
-                    return TokenValue::Scaled(common::Scaled::ZERO);
+                    return match glue_order {
+                        None => TokenValue::Scaled(s),
+                        Some(glue_order) => TokenValue::InfiniteGlue(s, glue_order),
+                    };
                 }
                 d => {
                     if !parsing_n {
@@ -463,7 +486,19 @@ impl<'a> Lexer<'a> {
                     if negative {
                         n *= -1;
                     }
-                    return TokenValue::Integer(n);
+                    return match i32::try_from(n) {
+                        Ok(n) => TokenValue::Integer(n),
+                        Err(_) => {
+                            self.errs.add(Error::NumberTooLarge {
+                                number: Str {
+                                    value: self.s,
+                                    start: start_idx,
+                                    end: self.l,
+                                },
+                            });
+                            TokenValue::Integer(0)
+                        }
+                    };
                 }
             }
         }
